@@ -32,13 +32,13 @@ def outcome(p, w):
 
 
 def check(case, ctx):
-    g = case['g']; fam = case['family']
-    gtext = gram.render_grammar(g)
+    g = case.get('g'); fam = case['family']
+    gtext = case.get('gtext') or gram.render_grammar(g)
     engines = [('earley', 'dynamic'), ('earley', 'dynamic_complete')]
     if fam == 'tok':
         engines = [('earley', 'basic'), ('lalr', 'basic'), ('lalr', 'contextual'), ('cyk', 'basic')] + engines
     parsers = {}
-    cyclic = gram.analyse(g)['cyclic']
+    cyclic = gram.analyse(g)['cyclic'] if g is not None else False
     for parser, lexer in engines:
         if parser == 'cyk' and cyclic: continue
         try:
@@ -216,6 +216,22 @@ def _known_lalr_loop(case, v):
 KNOWN = {'C08-lalr-endless-reduce-loop': _known_lalr_loop}
 
 
+# hand-written grammars in which one sub-rule is reused in several nesting contexts, with many rejected inputs parsed on
+# ONE instance: error-time information that wrongly depends on earlier errors (same LALR state, other stack) shows up here
+NESTED = [
+    ('start: value\n?value: list | tuple | N\nlist: "[" [value ("," value)*] "]"\ntuple: "(" [value ("," value)*] ")"\nN: "1"\n', '[](),1'),
+    ('start: e\n?e: e "+" t | t\n?t: t "*" f | f\n?f: N | "(" e ")" | "[" e "]"\nN: "n"\n', 'n+*()[]'),
+    ('start: stmt+\nstmt: "a" block | "b" ";"\nblock: "{" stmt* "}" | "(" stmt ")"\n', 'ab;{}()'),
+]
+
+
+@st.composite
+def nested_cases(draw):
+    g, alpha = draw(st.sampled_from(NESTED))
+    texts = [''.join(draw(st.lists(st.sampled_from(alpha), min_size=1, max_size=7))) for _ in range(10)]
+    return {'gtext': g, 'family': 'tok', 'texts': texts}
+
+
 def strat(o, fam, n, max_len):
     return gramgen.grammar_and_inputs(o, max_len=max_len, n=n, extra_chars='q' if fam == 'tok' else '').map(
         lambda c: {'g': c['g'], 'texts': c['texts'], 'family': fam})
@@ -224,4 +240,5 @@ def strat(o, fam, n, max_len):
 def phases(tier):
     k = 12 if tier == 'thorough' else 1
     return [Phase('tok', 'hypothesis', strategy=strat(O_TOK, 'tok', 4, 10), max_examples=16000 * k),
-            Phase('ovl', 'hypothesis', strategy=strat(O_OVL, 'ovl', 4, 10), max_examples=12000 * k)]
+            Phase('ovl', 'hypothesis', strategy=strat(O_OVL, 'ovl', 4, 10), max_examples=12000 * k),
+            Phase('nested-one-instance-many-errors', 'hypothesis', strategy=nested_cases(), max_examples=4000 * k)]
